@@ -486,12 +486,23 @@ def prop_dH(ch, ctx):
 # clause (ii): isothermal reaction
 # ---------------------------------------------------------------------------
 
+def exactly_consumed(case):
+    """Some chemical is consumed down to (numerically) nothing in the reference: the library's absolute
+    -1e-12 threshold then decides feasibility by round-off of the running sums (kg/hr on the wt basis)."""
+    chems, phases = case['schems'], case['phases']
+    consumed = np.zeros_like(case['feed'])
+    for sp, e in case['ext']:
+        nu, _rc = R.ref_nu(sp, chems, phases)
+        consumed += abs(e) * np.where(nu < 0, -nu, 0.0)
+    return bool(((consumed > 0) & (np.abs(case['ref_out']) <= 1e-10 * consumed)).any())
+
+
 def react(ctx, case, site, region, fn):
     """Run fn(); documented rejection = InfeasibleRegion on an infeasible feed."""
     try:
         ctx.call(site, fn, allowed=(InfeasibleRegion,), region=region)
     except InfeasibleRegion as e:
-        if case['boundary']:
+        if case['boundary'] or exactly_consumed(case):
             ctx.reject('exactly consumed co-reactant: feasibility decided by round-off')
         if case['feasible'] and float(case['ref_out'].min()) >= 0.0:
             ctx.fail(f'{site}|{region}|exc:InfeasibleRegion', f'feasible feed rejected: {e}')
